@@ -721,93 +721,177 @@ Lemma in_flight_core : forall x y, core x = core y -> in_flight x = in_flight y.
 Proof. intros x y H. apply core_inv in H. destruct H as [H _]. unfold in_flight. rewrite H. reflexivity. Qed.
 
 (* the repaired shape: the row of a step whose job is in flight is left as it is *)
-Lemma full_row_kept : forall cl nd y, in_flight y = true -> core (recycle_full_row true cl nd y) = core y.
-Proof.
-  intros cl nd y H. unfold recycle_full_row. rewrite H. cbn [andb negb]. rewrite !andb_false_r.
-  apply in_flight_true in H.
-  assert (E : sstate_eqb (st y) Failed = false) by (destruct H as [H|H]; rewrite H; reflexivity).
-  rewrite E, andb_false_r. reflexivity.
-Qed.
+Lemma full_row_kept : forall cl nd eo y, in_flight y = true -> core (recycle_full_row true cl nd eo y) = core y.
+Proof. intros cl nd eo y H. unfold recycle_full_row. rewrite H. reflexivity. Qed.
 
 Lemma partial_row_kept : forall g cl nd y, in_flight y = true -> core (recycle_partial_row true g cl nd y) = core y.
 Proof. intros g cl nd y H. unfold recycle_partial_row. rewrite H. reflexivity. Qed.
 
 (* both shapes: a row whose job is not in flight is overwritten *)
-Lemma full_row_reset : forall kp cl nd y, in_flight y = false ->
-  recycle_full_row kp cl nd y =
-  set_meta (false, nd, false) (set_rclaims cl
-    (if sstate_eqb (st (set_holding 0 y)) Failed then set_state_tr Pending (set_holding 0 y) else set_holding 0 y)).
-Proof.
-  intros kp cl nd y H. unfold recycle_full_row. rewrite H, andb_false_r.
-  unfold recycle_zeroes_holding, recycle_failed_to_pending, recycle_replaces_claims. reflexivity.
-Qed.
 
 Lemma partial_row_reset : forall kp g cl nd y, in_flight y = false ->
   recycle_partial_row kp g cl nd y =
   set_meta (false, nd, false) (set_rclaims cl (set_sig (add_out g (sig y)) (set_holding 0 (set_st (of_code partial_recycle_state) y)))).
 Proof. intros kp g cl nd y H. unfold recycle_partial_row. rewrite H, andb_false_r. reflexivity. Qed.
 
-Lemma full_row_cmds : forall kp cl nd y, cmds (recycle_full_row kp cl nd y) = cmds y.
+(* Facts about the interpreter of Step.after_recycle that hold for EVERY statement list (so the proofs do
+   not depend on the list the translator produced). *)
+Lemma mark_pending_in_flight : forall z, in_flight z = true -> mark_pending_row z = z.
+Proof. intros z H. unfold mark_pending_row. rewrite H. reflexivity. Qed.
+
+(* frame: mark_step_pending never touches the claims or the executing commands, and writes the state
+   (and, through the trigger, _holding := 0) only of a row that is not in flight *)
+Lemma mark_pending_frame : forall z,
+  cmds (mark_pending_row z) = cmds z /\ rclaims (mark_pending_row z) = rclaims z /\
+  (in_flight z = true -> mark_pending_row z = z) /\
+  (in_flight z = false -> st (mark_pending_row z) = Pending /\ holding (mark_pending_row z) = 0%N).
 Proof.
-  intros kp cl nd y. unfold recycle_full_row. cbv zeta.
-  destruct (recycle_zeroes_holding && negb (kp && in_flight y));
-    destruct (recycle_replaces_claims && negb (kp && in_flight y)); proj;
-    match goal with |- context [if ?c then _ else _] => destruct c end; proj; try reflexivity;
-    match goal with |- cmds (set_state_tr ?a ?b) = _ => destruct (set_state_tr_fields a b) as [_ [_ [F3 _]]]; exact F3 end.
+  intros z. unfold mark_pending_row. destruct (in_flight z) eqn:E.
+  - split; [reflexivity|split; [reflexivity|split; [intro; reflexivity|intro; discriminate]]].
+  - destruct (set_state_tr_fields Pending z) as [F1 [F2 [F3 _]]].
+    split; [exact F3|split; [exact F2|split; [intro; discriminate|intro; split; [exact F1|]]]].
+    apply set_state_tr_holding. discriminate.
 Qed.
+
+Lemma rop_cmds : forall k eo cl y op, cmds (rop_apply k eo cl y op) = cmds y.
+Proof.
+  intros k eo cl y [c a]. unfold rop_apply. cbn [fst snd]. destruct (rcond_holds c k eo y); [|reflexivity].
+  destruct a as [[|]| | |]; cbn [ract_apply]; try reflexivity. apply (proj1 (mark_pending_frame y)).
+Qed.
+
+Lemma run_ops_cmds : forall k eo cl ops y, cmds (run_ops k eo cl ops y) = cmds y.
+Proof.
+  intros k eo cl ops. unfold run_ops. induction ops as [|op r IH]; intro y; simpl; [reflexivity|].
+  rewrite IH. apply rop_cmds.
+Qed.
+
+Lemma full_row_cmds : forall kp cl nd eo y, cmds (recycle_full_row kp cl nd eo y) = cmds y.
+Proof.
+  intros kp cl nd eo y. unfold recycle_full_row. proj.
+  destruct (kp && in_flight y); [reflexivity|apply run_ops_cmds].
+Qed.
+
+(* a row without executing command that is not RUNNING and does not hold stays such a row *)
+Definition Qrow (z : row) : Prop := cmds z = [] /\ st z <> Running /\ holding z = 0%N.
+
+Lemma rop_Q : forall k eo cl y op, Qrow y -> Qrow (rop_apply k eo cl y op).
+Proof.
+  intros k eo cl y [c a] [Q1 [Q2 Q3]]. unfold rop_apply. cbn [fst snd].
+  destruct (rcond_holds c k eo y); [|repeat split; assumption].
+  destruct a as [[|]| | |]; cbn [ract_apply]; try (repeat split; assumption).
+  destruct (mark_pending_frame y) as [M1 [M2 [M3 M4]]]. destruct (in_flight y) eqn:E.
+  - rewrite (M3 eq_refl). repeat split; assumption.
+  - destruct (M4 eq_refl) as [M5 M6]. repeat split; [rewrite M1; exact Q1|rewrite M5; discriminate|exact M6].
+Qed.
+
+Lemma rop_V : forall k eo cl y op, NoDup (map fst cl) -> Vrow y -> Vrow (rop_apply k eo cl y op).
+Proof.
+  intros k eo cl y [c a] Hnd HV. unfold rop_apply. cbn [fst snd]. destruct (rcond_holds c k eo y); [|exact HV].
+  destruct a as [[|]| | |]; cbn [ract_apply]; try exact HV.
+  - unfold Vrow. rewrite (proj1 (proj2 (mark_pending_frame y))). exact HV.
+  - unfold Vrow. proj. exact Hnd.
+Qed.
+
+Lemma run_ops_QV : forall k eo cl ops y, NoDup (map fst cl) -> Qrow y -> Vrow y ->
+  Qrow (run_ops k eo cl ops y) /\ Vrow (run_ops k eo cl ops y).
+Proof.
+  intros k eo cl ops. unfold run_ops. induction ops as [|op r IH]; intros y Hnd HQ HV; simpl; [split; assumption|].
+  apply IH; [exact Hnd|apply rop_Q; exact HQ|apply rop_V; assumption].
+Qed.
+
+(* the statements leave the core of a row in flight alone when the new claims are the old ones and the
+   row does not hold (whatever the list) *)
+Lemma rop_same_core : forall k eo cl y0 y op, in_flight y0 = true -> holding y0 = 0%N -> cl = rclaims y0 ->
+  core y = core y0 -> core (rop_apply k eo cl y op) = core y0.
+Proof.
+  intros k eo cl y0 y [c a] Hf Hh Hcl Hc. unfold rop_apply. cbn [fst snd]. destruct (rcond_holds c k eo y); [|exact Hc].
+  pose proof (core_inv _ _ Hc) as [C1 [C2 [C3 C4]]].
+  destruct a as [[|]| | |]; cbn [ract_apply]; try exact Hc.
+  - unfold core. proj. rewrite C1, C3, C4, Hh. reflexivity.
+  - rewrite mark_pending_in_flight; [exact Hc|]. rewrite (in_flight_core _ _ Hc). exact Hf.
+  - unfold core. proj. rewrite C1, C2, C4, Hcl. reflexivity.
+Qed.
+
+Lemma run_ops_same_core : forall k eo cl y0 ops y, in_flight y0 = true -> holding y0 = 0%N -> cl = rclaims y0 ->
+  core y = core y0 -> core (run_ops k eo cl ops y) = core y0.
+Proof.
+  intros k eo cl y0 ops. unfold run_ops. induction ops as [|op r IH]; intros y Hf Hh Hcl Hc; simpl; [exact Hc|].
+  apply IH; try assumption. apply rop_same_core; assumption.
+Qed.
+
+(* FRAME FACT of the repaired shape: a list whose writes of _holding / step_resource are all under
+   `not in_flight` returns a row in flight exactly as it got it (the other statements are the need/shell
+   update, mark_step_pending - ignored for RUNNING/CHECKING - and columns outside the model) *)
+Lemma guarded_ops_frame : forall eo cl ops y, ops_guarded ops = true -> in_flight y = true ->
+  run_ops true eo cl ops y = y.
+Proof.
+  intros eo cl ops. unfold run_ops. induction ops as [|[c a] r IH]; intros y Hg Hf; simpl; [reflexivity|].
+  simpl in Hg. apply andb_prop in Hg. destruct Hg as [Hg1 Hg2].
+  assert (E : rop_apply true eo cl y (c, a) = y).
+  { unfold rop_apply. cbn [fst snd] in *. destruct a as [[|]| | |]; cbn [ract_apply].
+    - destruct c; try discriminate. reflexivity.
+    - destruct (rcond_holds c true eo y); reflexivity.
+    - destruct (rcond_holds c true eo y); [apply mark_pending_in_flight; exact Hf|reflexivity].
+    - destruct c; try discriminate. reflexivity.
+    - destruct (rcond_holds c true eo y); reflexivity. }
+  rewrite E. apply IH; assumption.
+Qed.
+
+(* ... and the translator's flag says so only for such a list *)
+Lemma keeps_inflight_guarded : recycle_keeps_inflight = true -> ops_guarded after_recycle_ops = true.
+Proof. unfold recycle_keeps_inflight. vm_compute. intro H; try discriminate H; reflexivity. Qed.
 
 Lemma partial_row_cmds : forall kp g cl nd y, cmds (recycle_partial_row kp g cl nd y) = cmds y.
 Proof. intros kp g cl nd y. unfold recycle_partial_row. destruct (kp && in_flight y); reflexivity. Qed.
 
 (* the unrepaired shape on a benign re-declaration of a step in flight: the row keeps what matters *)
-Lemma full_row_benign : forall cl nd y, in_flight y = true -> Krow y -> NoDup (map fst cl) ->
+Lemma full_row_benign : forall cl nd eo y, in_flight y = true -> Krow y -> Vrow y -> NoDup (map fst cl) ->
   (st y = Checking \/ (holding y = 0%N /\ cl = rclaims y)) ->
-  Krow (recycle_full_row false cl nd y) /\ Vrow (recycle_full_row false cl nd y) /\
-  forall r, row_cmd_used r (recycle_full_row false cl nd y) = row_cmd_used r y.
+  Krow (recycle_full_row false cl nd eo y) /\ Vrow (recycle_full_row false cl nd eo y) /\
+  forall r, row_cmd_used r (recycle_full_row false cl nd eo y) = row_cmd_used r y.
 Proof.
-  intros cl nd y Hf HK Hnd Hb. unfold recycle_full_row. cbn [andb negb].
-  unfold recycle_zeroes_holding, recycle_failed_to_pending, recycle_replaces_claims. cbn [andb].
-  apply in_flight_true in Hf.
-  assert (E : sstate_eqb (st (set_holding 0 y)) Failed = false)
-    by (proj; destruct Hf as [Hf|Hf]; rewrite Hf; reflexivity).
-  rewrite E.
-  split; [|split].
-  - destruct Hb as [Hc|[Hh Hcl]].
-    + unfold Krow in HK. destruct (cmds y) as [|m [|m2 t]] eqn:Ec.
-      * apply Krow_nil; proj; [exact Ec|rewrite Hc; discriminate|reflexivity].
-      * destruct HK as [HK _]. rewrite Hc in HK. discriminate.
-      * contradiction.
-    + unfold Krow in *. proj. rewrite Hcl. destruct (cmds y) as [|m [|m2 t]].
-      * destruct HK as [HK _]. split; [exact HK|reflexivity].
-      * destruct HK as [K1 [K2 K3]]. split; [exact K1|split; [exact K2|rewrite K3; exact Hh]].
-      * exact HK.
-  - unfold Vrow. proj. exact Hnd.
-  - intro r. unfold row_cmd_used. proj. reflexivity.
+  intros cl nd eo y Hf HK HV Hnd Hb. unfold recycle_full_row. cbn [andb].
+  set (z := run_ops false eo cl after_recycle_ops y).
+  assert (Hcm : cmds z = cmds y) by apply run_ops_cmds.
+  assert (Hu : forall r, row_cmd_used r (set_meta (false, nd, false) z) = row_cmd_used r y)
+    by (intro r; unfold row_cmd_used; proj; rewrite Hcm; reflexivity).
+  destruct Hb as [Hc|[Hh Hcl]].
+  - assert (Hnr : st y <> Running) by (rewrite Hc; discriminate).
+    destruct (Krow_not_running y HK Hnr) as [Hc0 Hh0].
+    destruct (run_ops_QV false eo cl after_recycle_ops y Hnd (conj Hc0 (conj Hnr Hh0)) HV) as [[Q1 [Q2 Q3]] V].
+    fold z in Q1, Q2, Q3, V.
+    split; [|split; [|exact Hu]].
+    + apply Krow_nil; proj; assumption.
+    + unfold Vrow. proj. exact V.
+  - assert (Hc : core z = core y) by (apply run_ops_same_core; [exact Hf|exact Hh|exact Hcl|reflexivity]).
+    split; [|split; [|exact Hu]].
+    + apply (Krow_core y); [|exact HK]. symmetry. exact Hc.
+    + apply (Vrow_core y); [|exact HV]. symmetry. exact Hc.
 Qed.
 
-Lemma recycle_row_facts : forall cl nd y, cmds y = [] -> st y <> Running -> NoDup (map fst cl) ->
-  let z := set_meta (false, nd, false) (set_rclaims cl
-             (if sstate_eqb (st (set_holding 0 y)) Failed then set_state_tr Pending (set_holding 0 y)
-              else set_holding 0 y)) in
+Lemma recycle_row_facts : forall kp cl nd eo y, cmds y = [] -> st y <> Running -> holding y = 0%N -> Vrow y ->
+  NoDup (map fst cl) ->
+  let z := recycle_full_row kp cl nd eo y in
   Krow z /\ Vrow z /\ forall r, row_cmd_used r z = 0%N.
 Proof.
-  intros cl nd y Hc Hs Hnd z. subst z. destruct (sstate_eqb (st (set_holding 0 y)) Failed).
-  - destruct (set_state_tr_fields Pending (set_holding 0 y)) as [F1 [F2 [F3 _]]].
-    assert (F4 : holding (set_state_tr Pending (set_holding 0 y)) = 0%N) by (apply set_state_tr_holding; discriminate).
-    repeat split.
-    + apply Krow_nil; proj; [rewrite F3; exact Hc|rewrite F1; discriminate|exact F4].
-    + unfold Vrow. proj. exact Hnd.
-    + intro r. unfold row_cmd_used. proj. rewrite F3. proj. rewrite Hc. reflexivity.
+  intros kp cl nd eo y Hc Hs Hh HV Hnd z. subst z. unfold recycle_full_row.
+  assert (HQ : Qrow y) by (repeat split; assumption).
+  destruct (kp && in_flight y).
   - repeat split.
-    + apply Krow_nil; proj; [exact Hc|exact Hs|reflexivity].
-    + unfold Vrow. proj. exact Hnd.
+    + apply Krow_nil; proj; assumption.
+    + unfold Vrow. proj. exact HV.
     + intro r. unfold row_cmd_used. proj. rewrite Hc. reflexivity.
+  - destruct (run_ops_QV false eo cl after_recycle_ops y Hnd HQ HV) as [[Q1 [Q2 Q3]] V].
+    repeat split.
+    + apply Krow_nil; proj; assumption.
+    + unfold Vrow. proj. exact V.
+    + intro r. unfold row_cmd_used. proj. rewrite Q1. reflexivity.
 Qed.
 
 Lemma Inv_step : forall s e, Inv s -> (keep || rej = true \/ calm_event s e) -> Inv (apply_gen keep rej s e).
 Proof.
   intros s e HI Hq. unfold apply_gen. destruct (step_gen keep rej s e) as [s'|] eqn:Es; [|exact HI].
-  rewrite (sys_eta s) in HI. destruct e as [m|i|i|i k o|i c|p l g cl nd|i k|i k|i]; simpl in Es.
+  rewrite (sys_eta s) in HI. destruct e as [m|i|i|i k o|i c|p l g cl nd eo|i k|i k|i]; simpl in Es.
   - (* ESetMeta *)
     inversion Es; subst; clear Es. unfold with_db. eapply Inv_ext; [|exact HI].
     apply setmeta_core. rewrite app_length, repeat_length. lia.
@@ -946,15 +1030,17 @@ Proof.
         apply Hrow.
         -- rewrite set_attached_in_core. exact H1.
         -- intros y _ Hy Hk. rewrite Hk. apply full_row_kept. exact Hy.
-        -- intros y Hy Hf. rewrite (full_row_reset keep cl nd y Hf).
+        -- intros y Hy Hf.
+           pose proof (Vrow_core _ _ (eq_sym Hy) (Forall_nth _ _ _ _ HV En)) as HVy.
            apply core_inv in Hy. destruct Hy as [Y1 [Y2 [Y3 Y4]]].
            destruct (in_flight_false y Hf) as [Hnr _].
            assert (Hnrx : st x <> Running) by (rewrite <- Y1; exact Hnr).
            destruct (Krow_not_running x HKx Hnrx) as [Hc Hh].
-           apply recycle_row_facts; [rewrite Y4; exact Hc|exact Hnr|exact Hnd].
+           apply recycle_row_facts; [rewrite Y4; exact Hc|exact Hnr|rewrite Y2; exact Hh|exact HVy|exact Hnd].
         -- intros [_ Hb] Hk y Hy Hf HKy. rewrite Hk.
+           pose proof (Vrow_core _ _ (eq_sym Hy) (Forall_nth _ _ _ _ HV En)) as HVy.
            apply core_inv in Hy. destruct Hy as [Y1 [Y2 [Y3 Y4]]].
-           apply full_row_benign; [exact Hf|exact HKy|exact Hnd|].
+           apply full_row_benign; [exact Hf|exact HKy|exact HVy|exact Hnd|].
            destruct Hb as [Hc|[Hh Hcl]]; [left; rewrite Y1; exact Hc|right; split; [rewrite Y2; exact Hh|rewrite Y3; exact Hcl]].
       * (* partial recycle *)
         unfold recycle_partial in Es. destruct (lose_product (db s) x) as [d0|] eqn:El; [|discriminate].
@@ -1094,7 +1180,7 @@ Qed.
 Lemma U_step : forall s e, Uall (avail s) (db s) -> Uall (avail s) (db (apply_gen keep rej s e)).
 Proof.
   intros s e HU. unfold apply_gen. destruct (step_gen keep rej s e) as [s'|] eqn:Es; [|exact HU].
-  destruct e as [m|i|i|i k o|i c|p l g cl nd|i k|i k|i]; simpl in Es.
+  destruct e as [m|i|i|i k o|i c|p l g cl nd eo|i k|i k|i]; simpl in Es.
   - inversion Es; subst; clear Es. simpl. eapply Uall_ext; [|exact HU].
     apply setmeta_core. rewrite app_length, repeat_length. lia.
   - destruct (nth_error (db s) i) as [x|] eqn:En; [|discriminate].
@@ -1455,39 +1541,39 @@ Qed.
    executes, P is deferred, runs again and declares S and T again WITH THE SAME resources while S still
    executes. Not quiet, but calm: the partial theorems apply, and T is refused while S holds the gpu. *)
 Definition history_benign_redeclare : list event :=
-  [ EDefine 0 1 0 [] need_DEFAULT; meta_all; EDispatch 1; EReset 1;
-    EDefine 1 2 0 [(1%N, 1%N)] need_DEFAULT; EDefine 1 3 0 [(1%N, 1%N)] need_DEFAULT;
+  [ EDefine 0 1 0 [] need_DEFAULT false; meta_all; EDispatch 1; EReset 1;
+    EDefine 1 2 0 [(1%N, 1%N)] need_DEFAULT false; EDefine 1 3 0 [(1%N, 1%N)] need_DEFAULT false;
     meta_all; EDispatch 2; EReset 2;
     EComplete 1 0 ODefer; meta_all; EDispatch 1; EReset 1;
-    EDefine 1 2 0 [(1%N, 1%N)] need_DEFAULT; EDefine 1 3 0 [(1%N, 1%N)] need_DEFAULT;
+    EDefine 1 2 0 [(1%N, 1%N)] need_DEFAULT false; EDefine 1 3 0 [(1%N, 1%N)] need_DEFAULT false;
     meta_all ].
 
 Definition witness_claims_replaced : list event :=
-  [ EDefine 0 1 0 [] need_DEFAULT; meta_all; EDispatch 1; EReset 1;
-    EDefine 1 2 0 [(1%N, 1%N)] need_DEFAULT; EDefine 1 3 0 [(1%N, 1%N)] need_DEFAULT;
+  [ EDefine 0 1 0 [] need_DEFAULT false; meta_all; EDispatch 1; EReset 1;
+    EDefine 1 2 0 [(1%N, 1%N)] need_DEFAULT false; EDefine 1 3 0 [(1%N, 1%N)] need_DEFAULT false;
     meta_all; EDispatch 2; EReset 2;
     EComplete 1 0 ODefer; meta_all; EDispatch 1; EReset 1;
-    EDefine 1 2 0 [] need_DEFAULT; EDefine 1 3 0 [(1%N, 1%N)] need_DEFAULT;
+    EDefine 1 2 0 [] need_DEFAULT false; EDefine 1 3 0 [(1%N, 1%N)] need_DEFAULT false;
     meta_all; EDispatch 3 ].
 
 (* same, but S is declared again with a different output list: partial recycle resets the row of the
    executing S to PENDING and S is dispatched a second time *)
 Definition witness_row_reset : list event :=
-  [ EDefine 0 1 0 [] need_DEFAULT; meta_all; EDispatch 1; EReset 1;
-    EDefine 1 2 0 [(1%N, 1%N)] need_DEFAULT;
+  [ EDefine 0 1 0 [] need_DEFAULT false; meta_all; EDispatch 1; EReset 1;
+    EDefine 1 2 0 [(1%N, 1%N)] need_DEFAULT false;
     meta_all; EDispatch 2; EReset 2;
     EComplete 1 0 ODefer; meta_all; EDispatch 1; EReset 1;
-    EDefine 1 2 1 [(1%N, 1%N)] need_DEFAULT;
+    EDefine 1 2 1 [(1%N, 1%N)] need_DEFAULT false;
     meta_all; EDispatch 2 ].
 
 (* S opens a hold block and declares C (4) inside it; the rerun of P recycles S, which zeroes
    S's counter although the block is still open; C is dispatched. *)
 Definition witness_hold_zeroed : list event :=
-  [ EDefine 0 1 0 [] need_DEFAULT; meta_all; EDispatch 1; EReset 1;
-    EDefine 1 2 0 [] need_DEFAULT;
-    meta_all; EDispatch 2; EReset 2; EHold 2 0; EDefine 2 3 0 [] need_DEFAULT;
+  [ EDefine 0 1 0 [] need_DEFAULT false; meta_all; EDispatch 1; EReset 1;
+    EDefine 1 2 0 [] need_DEFAULT false;
+    meta_all; EDispatch 2; EReset 2; EHold 2 0; EDefine 2 3 0 [] need_DEFAULT false;
     EComplete 1 0 ODefer; meta_all; EDispatch 1; EReset 1;
-    EDefine 1 2 0 [] need_DEFAULT; meta_all ].
+    EDefine 1 2 0 [] need_DEFAULT false; meta_all ].
 
 Theorem resources_full_refuted_claims_replaced :
   exists (s0 : sys) (evs : list event) (r : N),
